@@ -2,7 +2,8 @@
 the property file (SPEC_ENTRY, consumed by tools/mkprops.py)."""
 PROPS_ENTRY = {'models': ['Model/Queue.v'],
  'design_ref': 'DESIGN.md 3 C03',
- 'assumptions': ['caller contract of pop_used: the buffers passed are those submitted for the token (keys match)']}
+ 'assumptions': ['caller contract of pop_used: the buffers passed are those submitted for the token (keys match)',
+                 'heap faults: only the allocation of the indirect table in add is refused (kinds 111 / 169); other heap allocations of the crate are not fault-injected']}
 
 SPEC_ENTRY = {'title': 'Completions are consumed exactly once in any order; descriptor counts stay exact',
  'imports': ['Model.Queue', 'Proofs.QueueInv', 'Proofs.QueueReach', 'Proofs.QueueProps'],
@@ -21,7 +22,14 @@ SPEC_ENTRY = {'title': 'Completions are consumed exactly once in any order; desc
               ('C03_invariant',
                'Proofs/QueueReach.v',
                'Reach_Inv',
-               'holds for arbitrary index values: no lemma bounds avail_idx / last_used_idx, all index arithmetic is mod 2^16')],
+               'holds for arbitrary index values: no lemma bounds avail_idx / last_used_idx, all index arithmetic is mod 2^16'),
+              ('C03_alloc_failure',
+               'Proofs/QueueProps.v',
+               'add_alloc_failure',
+               'a fault at a particular point: when the heap refuses the indirect table of a submission, the call is a panic out of a queue that is '
+               'exactly as it was (no share, no store, no private change), for ANY state; the table is wanted exactly on the indirect path (indirect queue, '
+               'more than one buffer, capacity test passed); otherwise add_af is add. Monitor 169 evaluates this on the implementation (heap fault '
+               'injection in the harness allocator) and additionally requires, should the driver cope with the refusal, that no outstanding chain is touched')],
  'examples': ['Example C03_wrap_nonvacuous : exists s1 evs, add (qset_indices (qnew 4 false true) 65535) [mkBuf 1 8 100] [] 0 = (Ok 0, s1, evs)\n'
               '  /\\ q_avail_idx s1 = 0 /\\ nthN (q_aring s1) 3 7 = 0.\n'
               'Proof. eexists; eexists; vm_compute; repeat split; reflexivity. Qed.']}
